@@ -219,17 +219,20 @@ Theorem C19_fun2core_wc_size : forall codata cur k U t cont st s st',
 Proof. exact sz_wc. Qed.
 Print Assumptions C19_fun2core_wc_size.
 
-(* whole programs, all definitions incl. the lifted share_* ones.  fun_occ p = the largest number of
+(* whole programs in which main is not called (since fix <commitmain> of /repo a program that calls main gets one more
+   definition, the entry point  main<n>(params) { main(params, mu~x. exit x) }, whose 4 + #params nodes the bound does not
+   count when the parameters never occur in the source; for such programs the sizes are checked per case only), all
+   definitions incl. the lifted share_* ones.  fun_occ p = the largest number of
    DISTINCT typed variable occurrences (name, chirality, type) in one definition: for a type-checked
    program at most the parameters and binders of the definition (C19_fun2core_size_scoped); always <= size.
    Node counts: linear in size x (5 + occurrences);  weighted sizes (f_wprog counts the binders of
    clauses and definitions, c_wprog the clause/definition contexts): the form the pipeline needs. *)
-Theorem C19_fun2core_size : forall p c, compile_prog p = Fun2Core.Ok c ->
+Theorem C19_fun2core_size : forall p c, compile_prog p = Fun2Core.Ok c -> calls_main_prog p = false ->
   size_cprog c <= size_fcprog p * (10 + 2 * fun_occ p) /\
   c_wprog c <= f_wprog p * (12 + 3 * fun_occ p) /\
   fun_occ p <= size_fcprog p.
 Proof.
-  intros p c H. split; [exact (fun2core_size_nodes p c H)|]. split; [exact (fun2core_size_weighted p c H)|].
+  intros p c H Hncm. split; [exact (fun2core_size_nodes p c H Hncm)|]. split; [exact (fun2core_size_weighted p c H Hncm)|].
   exact (fun_occ_le_size p).
 Qed.
 Print Assumptions C19_fun2core_size.
@@ -238,7 +241,7 @@ Print Assumptions C19_fun2core_size.
    typed occurrence of a definition is one of its parameters / let variables / clause parameters / labels at the
    declared type; fun_tb p = the largest number of those in a definition.  This is the stated form
    size x (1 + variables), with the scoping hypothesis it needs. *)
-Theorem C19_fun2core_size_scoped : forall p c, compile_prog p = Fun2Core.Ok c -> occ_scoped p = true ->
+Theorem C19_fun2core_size_scoped : forall p c, compile_prog p = Fun2Core.Ok c -> calls_main_prog p = false -> occ_scoped p = true ->
   size_cprog c <= size_fcprog p * (10 + 2 * fun_tb p) /\ c_wprog c <= f_wprog p * (12 + 3 * fun_tb p).
 Proof. exact fun2core_size_scoped. Qed.
 Print Assumptions C19_fun2core_size_scoped.
@@ -254,7 +257,7 @@ Proof. exact fun2core_size_statement_12_refuted. Qed.
 Print Assumptions C19_fun2core_size_statement_unscoped_refuted.
 
 (* in the size alone: quadratic, for every program the translation accepts *)
-Theorem C19_fun2core_size_quadratic : forall p c, compile_prog p = Fun2Core.Ok c ->
+Theorem C19_fun2core_size_quadratic : forall p c, compile_prog p = Fun2Core.Ok c -> calls_main_prog p = false ->
   size_cprog c <= size_fcprog p * (10 + 2 * size_fcprog p).
 Proof. exact fun2core_size_quadratic. Qed.
 Print Assumptions C19_fun2core_size_quadratic.
@@ -350,12 +353,12 @@ Print Assumptions C19_rv_compile_size.
      b_linearized S = S (5 + 3 S)      (Model/SizeFun.v);
    closed forms with w = pl_w p = 12 W (4 + V), d = pl_d p = 4 + X (4 + A): d w^2 and 8 (d w^2)^2. *)
 Theorem C19_pipeline_ax_size : forall p c q s,
-  compile_prog p = Fun2Core.Ok c -> focus_prog c = Backend.Ok q -> shrink_prog q = SOk s ->
+  compile_prog p = Fun2Core.Ok c -> calls_main_prog p = false -> focus_prog c = Backend.Ok q -> shrink_prog q = SOk s ->
   ax_size_prog s <= pipeline_shrunk_bound p /\ ax_size_prog (linearize s) <= pipeline_ax_bound p /\
   pipeline_shrunk_bound p <= pl_d p * pl_w p ^ 2 /\ pipeline_ax_bound p <= 8 * (pl_d p * pl_w p ^ 2) ^ 2.
 Proof.
-  intros p c q s H1 H2 H3. split; [exact (pipeline_shrunk_size p c q s H1 H2 H3)|].
-  split; [exact (pipeline_ax_size p c q s H1 H2 H3)|]. split; [exact (pipeline_shrunk_closed p) | exact (pipeline_ax_closed p)].
+  intros p c q s H1 Hncm H2 H3. split; [exact (pipeline_shrunk_size p c q s H1 Hncm H2 H3)|].
+  split; [exact (pipeline_ax_size p c q s H1 Hncm H2 H3)|]. split; [exact (pipeline_shrunk_closed p) | exact (pipeline_ax_closed p)].
 Qed.
 Print Assumptions C19_pipeline_ax_size.
 
@@ -380,13 +383,13 @@ Print Assumptions C19_cg_bound_linearize.
    of the linearized program have distinct ids (sub_wf; implied by lin_check_prog, which C05_linearize_exact
    gives for prog_ok inputs). *)
 Theorem C19_pipeline_size : forall p c q s lc r n lc',
-  compile_prog p = Fun2Core.Ok c -> focus_prog c = Backend.Ok q -> shrink_prog q = SOk s ->
+  compile_prog p = Fun2Core.Ok c -> calls_main_prog p = false -> focus_prog c = Backend.Ok q -> shrink_prog q = SOk s ->
   sub_wf_prog (linearize s) = true ->
   x86_compile (linearize s) lc = Backend.Ok (r, n, lc') ->
   len r <= 30 + x86_K * (pipeline_ax_bound p * (5 + 4 * pipeline_shrunk_bound p)) /\
   pipeline_ax_bound p * (5 + 4 * pipeline_shrunk_bound p) <= 72 * (pl_d p * pl_w p ^ 2) ^ 3.
 Proof.
-  intros p c q s lc r n lc' H1 H2 H3 HW H5. split; [exact (pipeline_x86_size p c q s lc r n lc' H1 H2 H3 HW H5)|].
+  intros p c q s lc r n lc' H1 Hncm H2 H3 HW H5. split; [exact (pipeline_x86_size p c q s lc r n lc' H1 Hncm H2 H3 HW H5)|].
   exact (pipeline_cg_closed p).
 Qed.
 Print Assumptions C19_pipeline_size.
@@ -394,7 +397,7 @@ Print Assumptions C19_pipeline_size.
 (* the guard discharged through C05 (linearize_exact) when the shrunk program passes the boolean checker prog_ok
    (typed, binders unique); modelrun evaluates sub_wf on the real linearized program of every case *)
 Theorem C19_pipeline_size_prog_ok : forall p c q s lc r n lc',
-  compile_prog p = Fun2Core.Ok c -> focus_prog c = Backend.Ok q -> shrink_prog q = SOk s ->
+  compile_prog p = Fun2Core.Ok c -> calls_main_prog p = false -> focus_prog c = Backend.Ok q -> shrink_prog q = SOk s ->
   prog_ok s = true ->
   x86_compile (linearize s) lc = Backend.Ok (r, n, lc') ->
   len r <= 30 + x86_K * (pipeline_ax_bound p * (5 + 4 * pipeline_shrunk_bound p)).
